@@ -75,6 +75,12 @@ def fixed_scenarios(label):
         out.append((pre, ['set', c, ['__big__', 20000, 'y']]))     # a commit of several database pages
         out.append((pre, ['update', [[a, ['__big__', 20000, 'z']], [c, 1]]]))
     if label.startswith('dir'):
+        # keys whose text starts with the characters of the directory prefix
+        odd = [['Kappa', 1], ['_t', 2], ['K_2', 3], [a, 4]]
+        out.append((odd, ['clear']))
+        out.append((odd, ['del', 'Kappa']))
+        out.append((odd, ['update', [['_t', 5], ['K_2', 6]]]))
+    if label.startswith('dir'):
         # an earlier removal / overwrite of the same key was itself interrupted (at its k-th call), the key was
         # stored again, and now the operation is interrupted a second time
         for k in (0, 1, 2):
